@@ -198,6 +198,9 @@ func c02Case(c *core.C) {
 	}
 	doc, parent, shape := gen.CDXTree(r, c.K/2, ver, maxNodes)
 	c.Cover("shape:" + shape)
+	if gen.IsRelatedIDs(doc.NodeList) {
+		c.Cover("identifiers:short-and-related(prefixes, suffixes, concatenations of one another)")
+	}
 	c.Cover(fmt.Sprintf("version:1.%d", ver-10))
 	depth := 0
 	for id := range parent {
